@@ -52,6 +52,111 @@ CHECKS = {
              "hand-written (modelled, not verified Rust). No axioms.",
         technique="Coq proof (induction, finite sweeps by vm_compute) + differential correspondence model vs code",
         design="2/C07"),
+    "C06": dict(
+        text="Coq theorems over executable mirrors of Frame::parse (Wire.v) and Connection::parse_frame / recv_frame (Conn.v): no "
+             "buffer makes the decoder panic (C06_total), whenever it waits for more bytes fewer than 4 + 65536 are buffered "
+             "(C06_bounded), every delivered/skipped message consumes bytes (C06_progress), a receive error ends the peer task "
+             "(C06_error_terminates). Segmentation independence is decided by the correspondence: the real Connection is fed "
+             "every one of the 2^(n-1) segmentations of short streams (and boundary/random cuts of long ones) over an in-memory "
+             "pipe; after every prefix exactly the messages of that prefix must have been delivered and the buffered remainder "
+             "must be the undecoded rest. Four genuine defects found this way were repaired by fix: commits.",
+        note="Partial: the segmentation-independence theorem (run_conn reads = spec_stream (concat reads)) is not proved in Coq, "
+             "it is tested exhaustively per prefix. Not modelled: how many bytes one read_buf call appends, select! fairness. No axioms.",
+        technique="Coq proof (case analysis over the frame grammar, lia) + exhaustive-segmentation differential correspondence",
+        design="2/C06"),
+    "C08": dict(
+        text="Coq theorems over the executable mirror of the per-peer task (Handler.v): a handshake with a different info-hash or "
+             "an unexpected peer id ends the connection with nothing sent (C08_wrong_hash, C08_wrong_id); before a valid "
+             "handshake any other message ends it with nothing sent (C08_gate); for every event, state and manager answer, each "
+             "handshake written carries the torrent's info-hash and the own id and piece data is written only in answer to a "
+             "Request after a valid handshake (C08_actions). Tie: the real PeerHandler runs over an in-memory pipe with the "
+             "harness as remote peer and manager (paused clock), handshake first / late / twice / never / wrong.",
+        note="The 'forgets the peer' half is the manager's kill_peer (C12/C20 correspondence). Genuine defect (frames served before any "
+             "handshake) found by the check and repaired. No axioms.",
+        technique="Coq proof (exhaustive case analysis of the task's step function) + differential correspondence on the real task",
+        design="2/C08"),
+    "C09": dict(
+        text="Coq theorems: for every request (all of u32^3), loaded state and manager answer the task never panics and sends "
+             "nothing or exactly one Piece with the same index/offset carrying exactly the requested range of the loaded file, "
+             "inside the piece and at most 16 KiB (C09_reply); the manager lets a piece be loaded only for a peer it has "
+             "unchoked and only a piece it owns (C09_manager); the loaded piece is dropped when we choke (C09_choke_drops). "
+             "Tie: upload histories with boundary triples (incl. sums wrapping 32 bits) on the real PeerHandler; oracle on the "
+             "bytes written. Two genuine defects (u32 overflow panic, served after choke) found and repaired.",
+        note="The release-build (wrapping) arithmetic is modelled (ovf=false) but only the debug harness runs in the quick tier. No axioms.",
+        technique="Coq proof (case analysis, lia) + differential correspondence on the real task",
+        design="2/C09"),
+    "C10": dict(
+        text="Coq theorems: PieceRx::left tiles every piece length exactly (contiguous from 0, blocks of 1..16384 bytes, all but the "
+             "last 16 KiB, sum = length) by induction on the block count (C10_tiling, C10_tiling_sum); a new assignment writes "
+             "the first (<= 2) blocks of the tiling for that piece and asked ++ not-yet-asked is the tiling (C10_assignment); "
+             "each further request is exactly the next block (C10_next). Tie: download histories on the real PeerHandler "
+             "(answers in order, reversed, duplicated, withheld, foreign, corrupt); every Request frame is decoded and checked "
+             "against the tiling, the progress and completion rules by the oracle.",
+        note="Partial: the history-level progress/completion rule has no Coq theorem (oracle step10 on the real task). No axioms.",
+        technique="Coq proof (induction on blocks) + differential correspondence with a tiling oracle on observed Request frames",
+        design="2/C10"),
+    "C11": dict(
+        text="Coq theorems: the manager's bitfield answer marks exactly the Have pieces (C11_bitfield); a SendHave broadcast for i "
+             "happens only on PieceDone for i and i stays Have (C11_broadcast, C11_have_stays); on a connection a Have frame is "
+             "written only for a broadcast being processed or one held back, a Bitfield frame is exactly the manager's answer "
+             "(C11_actions); announcements are held while the peer chokes us and all flushed in completion order at its unchoke "
+             "(C11_held_back, C11_sent_at_once, C11_flush). Tie: broadcast/handshake/choke/unchoke interleavings on the real task.",
+        note="Not modelled: broadcast-channel lag (capacity 32) dropping announcements. No axioms.",
+        technique="Coq proof (case analysis of manager and task step functions) + differential correspondence",
+        design="2/C11"),
+    "C12": dict(
+        text="Coq theorems over the manager model: Have is absorbing for every command (C12_have_absorbing); a piece is assigned "
+             "only if the peer advertised it and the client lacks it (C12_asked_advertised_lacked, via the chooser relation). "
+             "The reservation invariant (Reserved => a connected, non-choking peer has actually been asked; no manager panic "
+             "for producible event sequences) is decided by the correspondence: event histories (repeated / out-of-order events, "
+             "several peers) run one command at a time on the real Session, every state compared with the model applied to "
+             "the previous observed state and the invariant evaluated on the observed state. Three genuine defects found and repaired.",
+        note="Partial: no Coq proof of the reservation invariant over the manager+task composition. Producibility assumptions about "
+             "the connection task (PieceDone only with a piece in assembly, Unchoke relayed only when choked, ...) are mirrored in "
+             "the harness and tied by the handler correspondences. No axioms.",
+        technique="Coq proof (case analysis) + per-step differential correspondence with invariant oracle on the real Session",
+        design="2/C12"),
+    "C13": dict(
+        text="Coq theorem over the chooser with its shuffle made an argument: for EVERY permutation of the desired pieces the piece "
+             "returned is advertised by the peer, lacked by the client, not being fetched unless fewer than ten remain, and no "
+             "other such piece is advertised by fewer peers; nothing is returned exactly when no such piece exists (C13_pick, "
+             "C13_pick_spec; sortedness + permutation of the insertion sort). Tie: random manager states set in the real "
+             "Session, choose_piece_index called repeatedly; membership of every pick in the allowed set (C13_allowed).",
+        note="The implementation's thread_rng shuffle cannot be replayed, hence membership rather than equality. No axioms.",
+        technique="Coq proof (Permutation/StronglySorted) + membership correspondence on the real Session",
+        design="2/C13"),
+    "C14": dict(
+        text="Coq theorem: a newcomer's bitfield never takes the regular unchoked peers above ten (C14_bitfield_bound, counting lemma "
+             "over the peer map). The rotation's bound and policy are decided by the correspondence: histories of up to 25 peers "
+             "with bitfield arrivals, interest changes and rotations (rate orders with ties, optimistic pick as "
+             "new_optimistic_peers) on the real Session; after every command the bound (10 + 1), after every rotation the policy "
+             "and the exactness of the broadcast map are evaluated on the observed state. Genuine defect (every bitfield sender "
+             "unchoked) found and repaired.",
+        note="Partial: no Coq proof over change_conn_state's loop. Not modelled: broadcast lag; the wrapper's random optimistic pick "
+             "(harness supplies it). No axioms.",
+        technique="Coq proof (counting lemma) + per-step differential correspondence with policy oracle",
+        design="2/C14"),
+    "C18": dict(
+        text="Coq theorems: percent-encoding then form-decoding is the identity on every byte string (C18_hash_roundtrip, 256-value and "
+             "16-digit sweeps lifted by forallb_forall + induction) and the encoding never contains '&', '=', '?', '#' "
+             "(C18_hash_safe); create_url = announce ++ one separator ++ info_hash=... with '&' iff a query exists (C18_url_shape). "
+             "Tie: the real TrackerClient::run against a loopback HTTP listener; the request line is read back and parsed by an "
+             "independent oracle (path and original parameters kept; info_hash, peer_id, port, left right). Genuine defect "
+             "(second '?') found and repaired.",
+        note="Partial: no general Coq theorem about the whole request for all announce URLs. url/reqwest normalisation (dot segments, "
+             "fragments, non-ASCII) not modelled. No axioms.",
+        technique="Coq proof (finite sweeps + induction) + differential correspondence on the request received by a loopback listener",
+        design="2/C18"),
+    "C20": dict(
+        text="Coq theorems over the task model: on a silent connection the first two ticks each emit one keep-alive and the third "
+             "closes it (C20_silent); any other message resets the count so the next tick keeps the connection (C20_live); only "
+             "the timer increases the count (C20_only_timer_counts); every non-closing tick emits exactly one keep-alive "
+             "(C20_emit). Tie: the real PeerHandler under tokio's paused clock, arrival times around k*120 s (+-1 ms), the number "
+             "of boundaries crossed read off the virtual clock.",
+        note="Partial: tokio Interval burst catch-up when the task is blocked > 120 s in a manager exchange, and select! choice when a "
+             "tick and a frame are ready together, are not modelled. No axioms.",
+        technique="Coq proof (case analysis of the step function) + differential correspondence under a virtual clock",
+        design="2/C20"),
     "C15": dict(
         text="Coq theorems: decode(encode vs) = vs for all well-formed values (full i64, binary strings, arbitrary nesting, "
              "prefix keys), encode v is in the independent inductive canonical grammar (ascending keys, shortest integers "
@@ -85,15 +190,18 @@ CHECKS = {
         technique="Coq proof (invariants over folds, case analysis) + differential correspondence",
         design="2/C17"),
     "C19": dict(
-        text="Reply half: Coq theorems over an executable mirror of TrackerResp::from_bencode / peers() built on the proved "
-             "bencode decoder model: parsing never panics for any body; a successful parse yields, in listed order, exactly "
-             "the well-formed entries (characterised by peer_of_spec) of the peers list of a top-level dictionary without a "
-             "failure reason; any string failure reason (valid UTF-8 or not) makes the reply a failure. One genuine defect "
-             "found by the check was repaired by a fix: commit (non-UTF-8 failure reason read as success). Tie: differential "
-             "runs on a reply grammar + mutations, independent oracle on the implementation's answer.",
-        note="Partial: the fault-sequence half (tracker task / command channel / manager blocking) is being built "
-             "(Tracker.v); HTTP transport and reqwest are not modelled. No axioms.",
-        technique="Coq proof (case analysis over the decoder model) + differential correspondence",
+        text="Reply half: Coq theorems over an executable mirror of TrackerResp::from_bencode / peers(): parsing never panics; a "
+             "successful parse yields, in listed order, exactly the well-formed entries of a top-level dictionary without a "
+             "failure reason; any string failure reason makes the reply a failure. Fault half: a transition system of the "
+             "tracker task (retry loop), the bounded command channel and the manager's handle_tracker_cmd/kill_tracker; for "
+             "every number of failures and EVERY interleaving the manager is never blocked before the tracker succeeded "
+             "(C19_faults_never_blocked) and the two never deadlock (C19_faults_no_deadlock), by an invariant over reachable "
+             "states; the pinned manager is refuted (blocked after 1 failure, deadlocked after 66). Tie: reply grammar + "
+             "mutations; fault sequences (0..70 failures under the paused clock) through the real Session's tracker channel, "
+             "comparing blocking, contacted peers and remaining candidates. Two genuine defects found and repaired.",
+        note="HTTP transport/reqwest not modelled; the retry loop of TrackerClient::run is modelled (scripted task in the harness); "
+             "tokio mpsc/JoinHandle semantics are a hand model. No axioms.",
+        technique="Coq proof (invariant over reachable states, case analysis) + differential correspondence",
         design="2/C19"),
 }
 
